@@ -1422,6 +1422,24 @@ def gen_s5_cases(seed, tier):
         cases.append('%s hist=%s' % (spec('h%d' % k, v, mn, mx, rate, unsafe, int(rng.below(3) == 0), int(rng.below(3) == 0), muts, 'none'),
                                      ';'.join(hist)))
         k += 1
+    # a caller changes a public setting of the SAME generator between two calls (fields are pub, the builder methods give the
+    # object back): the next call must behave like a fresh generator with the new settings - nothing computed under the old
+    # ones (candidate lists, flags, ranges) may survive
+    for i in range(120 if tier == 'quick' else 1200):
+        v = i % 6
+        mn, mx = rng.choice([(60, 300), (20, 40), (5, 9)])
+        u0 = rng.below(2)
+        e0, b0 = rng.below(2), rng.below(2)
+        x = 'b:' + (rand_bytes(rng, 60).hex() or '-')
+        first = [call() for _ in range(1 + rng.below(3))]
+        first = [c_ for c_ in first if c_ != 'r'] or [x]
+        toggles = rng.choice([['c:unsafe=%d' % (1 - u0)], ['c:ext=%d' % (1 - e0)], ['c:buf=%d' % (1 - b0)], ['c:min=3', 'c:max=7'],
+                              ['c:unsafe=%d' % (1 - u0), 'c:ext=%d' % (1 - e0), 'c:buf=%d' % (1 - b0)], ['c:max=%d' % (mx + 50)],
+                              ['c:rate=%s' % RATES[rng.choice(['0', '1'])]]])
+        last = rng.choice([x, 's:%d' % rng.below(1 << 32)])
+        muts = [] if rng.below(2) else [m for m in SAFE_MUTS if rng.below(3) == 0]
+        cases.append('%s hist=%s' % (spec('h%d' % k, v, mn, mx, RATES['0.5'], u0, e0, b0, muts, 'none'), ';'.join(first + toggles + [last])))
+        k += 1
     return cases
 
 
